@@ -834,9 +834,10 @@ def check_trace(case, res, strict_fre=True):
                         continue
                     if all(bytes((o['sv'][n] or (0, 0, b''))[2] or b'') == bytes(ref.get(n)) for n in STR_SCALARS) \
                             and all((o['nv'][n] or 0) == ref.get(n)[1] for n in NUM_SCALARS) \
-                            and all(o['arr'][n] is None or n not in ref.arr or
-                                    all(p[2] is not None and bytes(p[2]) == bytes(ref.arr[n][1][j2])
-                                        for j2, p in enumerate(o['arr'][n][1]) if j2 <= ref.arr[n][0])
+                            and all(o['arr'][n] is None or
+                                    all(p[2] is not None and bytes(p[2]) ==
+                                        (bytes(ref.arr[n][1][j2]) if n in ref.arr and j2 <= ref.arr[n][0] else b'')
+                                        for j2, p in enumerate(o['arr'][n][1]))
                                     for n in STR_ARRAYS):
                         break
                 else:
